@@ -26,7 +26,7 @@ STUBS = ["vp.memfs mounted; the CodeBase is a FakeCodeBase whose member list is 
 ASSUMPTIONS = ["exclusion by pattern / location is abstracted as one membership bit per file (gitignore semantics: C09)",
                "the equivalence of -x and [codebase].exclude is a two-line list concatenation in __main__/tree and is outside the claim",
                "once the bits are decided the real code runs untraced on that leaf"]
-BOUNDS = {"quick": "4 scenarios with 3-5 files (one header outside the root): all 2^files membership patterns x 2 -D bits x two platforms",
+BOUNDS = {"quick": "5 scenarios with 3-5 files (one header outside the root): all 2^files membership patterns x 2 -D bits x two platforms",
           "thorough": "same (exhausted)"}
 EXPLANATION = ("Membership bits and -D bits are symbolic bools exhausted by CrossHair; on every leaf the real finder.find is run with the member "
                "list and with all files, the two attributions and the reference preprocessor's are compared line by line, and get_setmap is "
@@ -185,7 +185,7 @@ def obligations(tier, known):
 
 
 CLAIM = ("For every subset of excluded files (including compiled files, providers of macros, forced includes and a header outside the root) "
-         "and every -D choice in 4 scenarios, per-line attribution is unchanged and equals the reference preprocessor, and the platform-set "
+         "and every -D choice in 5 scenarios, per-line attribution is unchanged and equals the reference preprocessor, and the platform-set "
          "table loses exactly the excluded files' lines - exhausted by CrossHair.")
 LEVEL_NOTE = ("Trusted: CrossHair/z3 for the enumeration, vp/memfs.py, vp/refs/ref_cpp.py. Bounded: 5 templates, <= 5 files, 2 platforms. "
               "Pattern matching and the CLI's -x handling are outside.")
